@@ -3,8 +3,12 @@
 wt=$1; name=$2
 tmp=$(mktemp -d)
 cd $wt
+# the delivered patch.diff is what counts: the worktree is reset and the patch applied afresh (worktrees of one
+# repository share `git stash`; a seeding agent's stash/pop can have picked up another agent's change)
 git diff -- icontract > $tmp/confirm.diff
-if ! diff -q $tmp/confirm.diff _seeded/patch.diff >/dev/null; then echo "NOTE: patch.diff differs from worktree diff; using worktree diff"; cp $tmp/confirm.diff _seeded/patch.diff; fi
+if ! diff -q $tmp/confirm.diff _seeded/patch.diff >/dev/null; then echo "NOTE: patch.diff differs from the worktree diff; using patch.diff on a clean tree"; fi
+git checkout -q -- icontract
+if ! git apply _seeded/patch.diff; then echo "patch.diff does not apply to a clean tree"; exit 2; fi
 echo "== tests with change"; /venv/bin/python -m pytest -q -p no:cacheprovider --timeout=900 --continue-on-collection-errors 2>&1 | tail -1
 echo "== demo with change"; PYTHONPATH=$wt /venv/bin/python _seeded/demo.py > $tmp/demo_with.out 2>&1; echo "status=$?"; tail -3 $tmp/demo_with.out
 git apply -R _seeded/patch.diff
